@@ -36,6 +36,26 @@ pub proof fn lemma_neg_mentions()
 {
 }
 
+/// the first k literals of the sequence hold in env
+pub open spec fn lits_hold(env: Env, lits: Seq<Literal>, k: int) -> bool
+    decreases k
+{
+    if k <= 0 { true } else { lits_hold(env, lits, k - 1) && env(lits[k - 1].lbl.0) == lits[k - 1].pol }
+}
+/// x is the variable of one of the first k literals
+pub open spec fn lits_mention(lits: Seq<Literal>, k: int, x: VarLabel) -> bool
+    decreases k
+{
+    if k <= 0 { false } else { lits_mention(lits, k - 1, x) || lits[k - 1].lbl == x }
+}
+pub proof fn lemma_lits_mention(lits: Seq<Literal>, k: int, x: VarLabel)
+    requires lits_mention(lits, k, x), 0 <= k <= lits.len(),
+    ensures exists|i: int| 0 <= i < k && (#[trigger] lits[i]).lbl == x,
+    decreases k,
+{
+    if k > 0 && lits[k - 1].lbl != x { lemma_lits_mention(lits, k - 1, x); }
+}
+
 pub trait TopDownBuilder<'a> {
     fn var(&'a self, label: VarLabel, polarity: bool) -> (r: BddPtr<'a>)
         ensures forall|env: Env| #[trigger] tr(env) ==> ptr_sem(r, env) == (env(label.0) == polarity);
@@ -57,6 +77,44 @@ pub trait DecisionNNFBuilder<'a>: TopDownBuilder<'a> {
             // the stored node tests exactly the variables of the argument node
             forall|x: VarLabel| #[trigger] mentions(r, x) == (x == bdd.var || mentions(bdd.low, x) || mentions(bdd.high, x)),
             decides_once(r) == (!mentions(bdd.low, bdd.var) && !mentions(bdd.high, bdd.var) && decides_once(bdd.low) && decides_once(bdd.high));
+
+// R-iter: `literals: impl Iterator<Item = Literal>` cannot be iterated in Verus; the parameter becomes the trusted
+// container `LitIter` (trusted/lit_iter.rs) and the loop header iterates the vector it stands for (A-lit-iter)
+//%% extract src/builder/decision_nnf/builder.rs :: trait DecisionNNFBuilder<'a>: TopDownBuilder<'a, BddPtr<'a>> :: fn conjoin_implied
+//%% @ret r
+//%% @rewrite 1 /literals: impl Iterator<Item = Literal>,/ => literals: LitIter,
+//%% @rewrite 1 /for l in literals \{/ => let lits__v = verif_lits_vec(literals);\n        for l__r in it: lits__v.iter() {\n            let l = *l__r;
+//%% @spec
+        requires
+            decides_once(nnf),
+            // the implied literals are on distinct variables that the diagram does not decide
+            forall|i: int| 0 <= i < literals.lits().len() ==> !mentions(nnf, (#[trigger] literals.lits()[i]).lbl),
+            forall|i: int, j: int| 0 <= i < j < literals.lits().len() ==> (#[trigger] literals.lits()[i]).lbl != (#[trigger] literals.lits()[j]).lbl,
+        ensures
+            // the diagram conjoined with every implied literal
+            forall|env: Env| #[trigger] tr(env) ==> ptr_sem(r, env) == (ptr_sem(nnf, env) && lits_hold(env, literals.lits(), literals.lits().len() as int)),
+            decides_once(r),
+            forall|x: VarLabel| #[trigger] mentions(r, x) ==> mentions(nnf, x) || lits_mention(literals.lits(), literals.lits().len() as int, x),
+//%% @entry
+        let ghost lits0 = literals.lits();
+        proof { tr_all(); axiom_bddptr_eq(); }
+//%% @loop 1 /^for l__r in it: lits__v\.iter\(\)$/
+            invariant
+                lits__v@ == lits0, decides_once(nnf), decides_once(sub), !(nnf is PtrFalse),
+                forall|i: int| 0 <= i < lits0.len() ==> !mentions(nnf, (#[trigger] lits0[i]).lbl),
+                forall|i: int, j: int| 0 <= i < j < lits0.len() ==> (#[trigger] lits0[i]).lbl != (#[trigger] lits0[j]).lbl,
+                forall|env: Env| #[trigger] tr(env) ==> ptr_sem(sub, env) == (ptr_sem(nnf, env) && lits_hold(env, lits0, it.index@ as int)),
+                forall|x: VarLabel| #[trigger] mentions(sub, x) ==> mentions(nnf, x) || lits_mention(lits0, it.index@ as int, x),
+//%% @loopbody 1
+            proof {
+                tr_all();
+                // the next literal's variable is not decided below: not in nnf, and different from the earlier literals
+                let k = it.index@ as int;
+                assert(!mentions(sub, lits0[k].lbl)) by {
+                    if mentions(sub, lits0[k].lbl) { lemma_lits_mention(lits0, k, lits0[k].lbl); }
+                }
+            }
+//%% end
 
 // R-orguard: Verus rejects a match arm with both an or-pattern and a guard; the two arms
 //     `P if g => A,  P => B`   are rewritten to   `P => { if g A else B }`   (same pattern P, adjacent arms)
